@@ -41,7 +41,9 @@ def user_punch(rng, n):
         s.append(' 3 a$ = a$ + "y"')
         s.append(" 4 NEXT i")
         vals.insert(rng.randint(0, len(vals)), "a$")
-    if vals:
+    if vals and rng.random() < 0.1:
+        s.append(" 10 PUNCH " + ", ".join(vals) + ", NO_NEWLINE$")
+    elif vals:
         s.append(" 10 PUNCH " + ", ".join(vals))
     else:
         s.append(" 10 REM nothing")
@@ -54,6 +56,9 @@ def selected_output(rng, n):
         s.append(" -reset false")
     if rng.random() < 0.3:
         s.append(f" -high_precision {rng.choice(['true', 'false'])}")
+    if rng.random() < 0.15:
+        # all records of a run on one line: the string then ends without a newline
+        s.append(" -new_line false")
     opts = [(" -totals " + " ".join(rng.sample(ELTS[:8], rng.randint(1, 3)))),
             (" -molalities " + " ".join(rng.sample(SPECIES, rng.randint(1, 3)))),
             (" -activities " + " ".join(rng.sample(SPECIES, rng.randint(1, 2)))),
@@ -108,7 +113,7 @@ def long_punch(n, L):
             f' 1 a$ = ""\n 2 FOR i = 1 TO {L}\n 3 a$ = a$ + "y"\n 4 NEXT i\n 10 PUNCH a$, 1\n')
 
 
-def stream_input(rng, allow_error=True, force_long=None):
+def stream_input(rng, allow_error=True, force_long=None, force_no_newline=False):
     """input exercising every output stream: output, log (KNOBS -logfile), warnings, errors, DUMP, selected output"""
     t = []
     users = []
@@ -127,6 +132,11 @@ def stream_input(rng, allow_error=True, force_long=None):
         u = rng.choice([3, 4])
         users.append(u)
         t.append(long_punch(u, force_long))
+    if force_no_newline:
+        # every record of the call on one text line: the sink text ends without a newline
+        u = rng.choice([6, 7])
+        users.append(u)
+        t.append(f"SELECTED_OUTPUT {u}\n -reset false\n -pH true\n -new_line false\nUSER_PUNCH {u}\n -headings q\n 10 PUNCH 1.5\n")
     if rng.random() < 0.4:
         # warning: negative concentration / unknown option warnings
         t.append("SOLUTION 3\n pH 7 charge\n Na 1\n Cl 1.1\n -water 1\n")
